@@ -85,8 +85,71 @@ func (e *Engine) flowResult() *FuncResult {
 		ok3 = loadedSchemasOnlyReachContext(fn)
 	}
 	ctx.addOblig("flow", "codegen.(*Pipeline).Run:loaded-schemas-only-reach-ContextForLanguage", BoolLit(ok3), "internal/codegen/run.go")
+	// F4: Schemas.Consolidate merges every input into the very schema it returns for the package: the
+	// receiver of each Schema.Merge call is a pointer that is also appended to the returned list (merging
+	// into a by-value copy of a schema would lose what Merge writes to the receiver: entry point, entry
+	// point type)
+	ok4 := false
+	if fn := e.fnByKey["ast.Schemas.Consolidate"]; fn != nil {
+		n := 0
+		ok4 = true
+		for _, b := range fn.Blocks {
+			for _, in := range b.Instrs {
+				ci, isCall := in.(*ssa.Call)
+				if !isCall {
+					continue
+				}
+				sc := ci.Call.StaticCallee()
+				if sc == nil || funcKey(sc) != "ast.(*Schema).Merge" || len(ci.Call.Args) < 1 {
+					continue
+				}
+				n++
+				if !appendedToResult(ci.Call.Args[0]) {
+					ok4 = false
+				}
+			}
+		}
+		ok4 = ok4 && n > 0
+	}
+	ctx.addOblig("flow", "ast.Schemas.Consolidate:inputs-are-merged-into-the-schema-that-is-returned", BoolLit(ok4), "internal/ast/schema.go")
 	res.Obligs = ctx.obligs
 	return res
+}
+
+// appendedToResult: the pointer value is stored into the variadic argument array of an append call.
+func appendedToResult(v ssa.Value) bool {
+	refs := v.Referrers()
+	if refs == nil {
+		return false
+	}
+	for _, r := range *refs {
+		st, ok := r.(*ssa.Store)
+		if !ok || st.Val != v {
+			continue
+		}
+		ia, ok := st.Addr.(*ssa.IndexAddr)
+		if !ok {
+			continue
+		}
+		al, ok := ia.X.(*ssa.Alloc)
+		if !ok || al.Referrers() == nil {
+			continue
+		}
+		for _, r2 := range *al.Referrers() {
+			sl, ok := r2.(*ssa.Slice)
+			if !ok || sl.Referrers() == nil {
+				continue
+			}
+			for _, r3 := range *sl.Referrers() {
+				if c, ok := r3.(*ssa.Call); ok {
+					if bi, isB := c.Call.Value.(*ssa.Builtin); isB && bi.Name() == "append" {
+						return true
+					}
+				}
+			}
+		}
+	}
+	return false
 }
 
 // derivedFromCopy: v is the result of Schemas.DeepCopy, of a previous Pass.Process, or a phi/extract of those.
